@@ -320,6 +320,9 @@ class Interp(object):
         ks = _known_sign(d)
         if ks is not None:
             return {'eq': False, 'ne': True, 'lt': ks < 0, 'le': ks < 0, 'gt': ks > 0, 'ge': ks > 0}[op]
+        if op in ('eq', 'ne') and d.is_poly() and not d.is_real():
+            if _known_sign(d.real()) is not None or _known_sign(d.imag()) is not None:
+                return op == 'ne'
         sgn, key, text = _canon_diff(d)
         if key not in self.trace.sign_exprs:
             self.trace.sign_exprs[key] = d if sgn > 0 else -d
@@ -1114,6 +1117,9 @@ class Interp(object):
             return bm.call_ext(self, f.dotted, args, kwargs)
         if isinstance(f, BoundBuiltin):
             return bm.call_bound(self, f.recv, f.name, args, kwargs)
+        from .values import PyFunc
+        if isinstance(f, PyFunc):
+            return f.fn(self, args, kwargs)
         if isinstance(f, PolyT):
             if len(args) != 1:
                 raise PyRaise('TypeError')
@@ -1322,6 +1328,10 @@ def _canon_diff(d):
     if lead < 0:
         sgn = -1
         d = -d
+        lead = -lead
+    # invariance under positive scaling: 2x < 0 and x/20 < 0 are the same test
+    if lead != 1 and lead != 0:
+        d = d * Rat.const(Fr(1) / lead)
     k = d.key()
     return sgn, k, k
 
